@@ -1,0 +1,63 @@
+//go:build verif
+
+package consensus
+
+// Add-only wrappers for the out-of-tree verification harness (/verif, family `peer`, property C18:
+// "no message from a peer can crash the node").  Nothing here is compiled without the build tag
+// `verif`; nothing changes the behaviour of an existing function.
+
+import (
+	"time"
+
+	"github.com/kardiachain/go-kardia/lib/p2p"
+)
+
+// VerifSetWaitSync sets the reactor's wait-sync flag (what SwitchToConsensus does, without starting
+// the consensus state: the harness steps the state machine itself through VerifHandleMsg).
+func (conR *ConsensusManager) VerifSetWaitSync(b bool) {
+	conR.mtx.Lock()
+	conR.waitSync = b
+	conR.mtx.Unlock()
+}
+
+// VerifTakePeerMsg takes one message from the consensus state's peer queue without blocking
+// (what receiveRoutine's select does for `mi = <-cs.peerMsgQueue`).
+func (cs *ConsensusState) VerifTakePeerMsg() (Message, p2p.ID, bool) {
+	select {
+	case mi := <-cs.peerMsgQueue:
+		return mi.Msg, mi.PeerID, true
+	default:
+		return nil, "", false
+	}
+}
+
+// VerifPeerQueueLen returns the number of queued peer messages.
+func (cs *ConsensusState) VerifPeerQueueLen() int { return len(cs.peerMsgQueue) }
+
+// VerifSetGossipSleep shortens the two pacing sleeps of the gossip routines.
+func (cs *ConsensusState) VerifSetGossipSleep(gossip, maj23 time.Duration) {
+	cs.config.PeerGossipSleepDuration = gossip
+	cs.config.PeerQueryMaj23SleepDuration = maj23
+}
+
+// The three per-peer routines that AddPeer starts with `go`, run in the CALLER's goroutine with the
+// panic value returned instead of killing the process (a panic in one of them is not recovered
+// anywhere in the real node).  They return when the peer or the reactor stops.
+func (conR *ConsensusManager) VerifGossipDataRoutine(peer p2p.Peer, ps *PeerState) (r interface{}) {
+	defer func() { r = recover() }()
+	conR.gossipDataRoutine(peer, ps)
+	return nil
+}
+func (conR *ConsensusManager) VerifGossipVotesRoutine(peer p2p.Peer, ps *PeerState) (r interface{}) {
+	defer func() { r = recover() }()
+	conR.gossipVotesRoutine(peer, ps)
+	return nil
+}
+func (conR *ConsensusManager) VerifQueryMaj23Routine(peer p2p.Peer, ps *PeerState) (r interface{}) {
+	defer func() { r = recover() }()
+	conR.queryMaj23Routine(peer, ps)
+	return nil
+}
+
+// VerifDecodeMsg is decodeMsg (wire bytes -> Message, ValidateBasic included).
+func VerifDecodeMsg(bz []byte) (Message, error) { return decodeMsg(bz) }
